@@ -821,6 +821,7 @@ pub fn run(p: &Params) -> Run {
     crate::c03func::function_cases(&mut run, &mut rng, p.tier_thorough);
     let n_stmt = p.n(1200, 40_000);
     select_level(&mut run, &mut rng, n_stmt);
+    anchor_cases(&mut run);
     tz_stream(&mut run, p);
     run.notes.push("statement level: SELECT lists mixing columns, qualified columns, expressions, `input`, `*`, aliases (also clashing ones) with WHERE; names checked against alias|column|p<i>; whole-run output = concatenation of the per-line outputs; three-way with Spec.Select".to_owned());
     run.notes.push("expression level: type-directed generator (≈ 80% well-typed, 20% with ill-typed sub-terms) + operator × type × type table".to_owned());
@@ -877,6 +878,55 @@ pub fn array_unique_cases(run: &mut Run, rng: &mut Rng, n: usize) {
             Ev::Ok(v) => run.fail(desc, "array-unique-not-an-array", format!("gave {}", v)),
             Ev::Err(_) => {}
             Ev::Panic(m) => run.fail(desc, "panic:array-unique", m),
+        }
+    }
+}
+
+/// ANCHORS: a small table of calls with the answer written down by hand from the README's signatures and the usual
+/// meaning of the words — for the places where the oracle would otherwise only repeat the library call the code makes
+/// (`pow` / `sqrt` on REAL, `regex_matches`: a search, not a full match; first argument the text, second the pattern)
+pub fn anchor_cases(run: &mut Run) {
+    let r = |x: f64| lit(Value::Float(Float(x)));
+    let t = |x: &str| lit(Value::String(x.to_owned()));
+    let i = |x: i64| lit(Value::Int(x));
+    let table: Vec<(ExpressionTree, Value)> = vec![
+        (call(Function::Pow, vec![r(2.0), r(3.0)]), Value::Float(Float(8.0))),
+        (call(Function::Pow, vec![r(3.0), r(2.0)]), Value::Float(Float(9.0))),
+        (call(Function::Pow, vec![r(4.0), r(0.5)]), Value::Float(Float(2.0))),
+        (call(Function::Pow, vec![r(7.5), r(0.0)]), Value::Float(Float(1.0))),
+        (call(Function::Pow, vec![r(2.0), r(-1.0)]), Value::Float(Float(0.5))),
+        (call(Function::Pow, vec![i(2), i(10)]), Value::Int(1024)),
+        (call(Function::Pow, vec![i(10), i(2)]), Value::Int(100)),
+        (call(Function::Sqrt, vec![r(9.0)]), Value::Float(Float(3.0))),
+        (call(Function::Sqrt, vec![r(2.25)]), Value::Float(Float(1.5))),
+        (call(Function::Sqrt, vec![r(0.0)]), Value::Float(Float(0.0))),
+        (call(Function::RegexMatches, vec![t("abc"), t("b")]), Value::Bool(true)),
+        (call(Function::RegexMatches, vec![t("abc"), t("^b")]), Value::Bool(false)),
+        (call(Function::RegexMatches, vec![t("abc"), t("c$")]), Value::Bool(true)),
+        (call(Function::RegexMatches, vec![t("b"), t("abc")]), Value::Bool(false)),
+        (call(Function::RegexMatches, vec![t("hello world"), t("l{2}")]), Value::Bool(true)),
+        (call(Function::RegexMatches, vec![t("a.c"), t("a\\.c")]), Value::Bool(true)),
+        (call(Function::RegexMatches, vec![t("abc"), t("a\\.c")]), Value::Bool(false)),
+        (call(Function::Greatest, vec![r(1.5), r(-2.0)]), Value::Float(Float(1.5))),
+        (call(Function::Least, vec![r(1.5), r(-2.0)]), Value::Float(Float(-2.0))),
+        (call(Function::Abs, vec![r(-2.5)]), Value::Float(Float(2.5))),
+        (call(Function::StringLength, vec![t("na\u{ef}ve")]), Value::Int(5)),
+        (call(Function::StringToUpper, vec![t("abc-1")]), Value::String("ABC-1".to_owned())),
+        (call(Function::StringToLower, vec![t("AbC-1")]), Value::String("abc-1".to_owned())),
+        (call(Function::ArrayLength, vec![lit(Value::Array(ValueType::Int, vec![Value::Int(4), Value::Int(5), Value::Int(6)]))]), Value::Int(3)),
+        (ExpressionTree::ArrayElementAccess { array: bx(lit(Value::Array(ValueType::Int, vec![Value::Int(4), Value::Int(5), Value::Int(6)]))), index: bx(i(1)) }, Value::Int(4)),
+        (ExpressionTree::ArrayElementAccess { array: bx(lit(Value::Array(ValueType::Int, vec![Value::Int(4), Value::Int(5), Value::Int(6)]))), index: bx(i(3)) }, Value::Int(6)),
+        (ExpressionTree::Arithmetic { operator: ArithmeticOperator::Subtract, left: bx(r(5.0)), right: bx(r(1.5)) }, Value::Float(Float(3.5))),
+        (ExpressionTree::Arithmetic { operator: ArithmeticOperator::Divide, left: bx(r(5.0)), right: bx(r(2.0)) }, Value::Float(Float(2.5))),
+        (ExpressionTree::Arithmetic { operator: ArithmeticOperator::Divide, left: bx(i(7)), right: bx(i(2)) }, Value::Int(3)),
+        (ExpressionTree::Arithmetic { operator: ArithmeticOperator::Divide, left: bx(i(-7)), right: bx(i(2)) }, Value::Int(-3)),
+    ];
+    for (e, want) in table {
+        check_expr(run, &[], &e, "anchor:");
+        run.oracle_checks += 1;
+        match eval_real(&[], &e) {
+            Ev::Ok(v) if bits_equal(&v, &want) => {}
+            other => run.fail(format!("expr={}", e), "anchor-differs", format!("written down by hand: {}; evaluation gave {}", want, other.wire())),
         }
     }
 }
